@@ -246,20 +246,31 @@ def _producers_before(f, evs, bb, prog=None):
     gated = _type_gated_casts(prog, f, evs) if prog is not None else {}
     out = []
     seen = set()
-    st = [(p, bb) for p in preds.get(bb, [])]
+    # (block, block we came from, number of value-stack pops still to be matched by a push)
+    st = [(p, bb, 0) for p in preds.get(bb, [])]
     while st:
-        b, came_from = st.pop()
+        b, came_from, pending_pops = st.pop()
         if b in gated and came_from not in gated[b]:
             # the path on which the value's type is not a built-in numeric/string type
             continue
-        if b in seen:
+        if (b, pending_pops) in seen:
             continue
-        seen.add(b)
+        seen.add((b, pending_pops))
         e = evs.get(b)
+        if e is not None and e.kind == "push" and e.instr == "PopValueStackIntoA":
+            # the value comes back from the value stack: its producer is whatever was in A at the
+            # matching PushAToValueStack
+            st.extend((p, b, pending_pops + 1) for p in preds.get(b, []))
+            continue
+        if pending_pops:
+            if e is not None and e.kind == "push" and e.instr == "PushAToValueStack":
+                pending_pops -= 1
+            st.extend((p, b, pending_pops) for p in preds.get(b, []))
+            continue
         if e is not None and _is_producer(e):
             out.append(e)
             continue
-        st.extend((p, b) for p in preds.get(b, []))
+        st.extend((p, b, 0) for p in preds.get(b, []))
     return out
 
 
